@@ -244,6 +244,8 @@ def run(ctx):
                  "add_node, add_arc, add_nodes, add_travel_arcs, add_entry_arcs, add_exit_arcs, estimate_high_cost) and the "
                  "meaning given to its combinators in coq/theories/PyMirp.v")
     rng = ctx.rng
+    from props import c11_after
+    n_after = c11_after.run_stream(ctx)      # windows are untouched by, and carried into, the formulations
     n = 300 if ctx.quick else 5000
     n_win = 120 if ctx.quick else 1500
     n_rand_sched = 6 if ctx.quick else 12
